@@ -1,0 +1,9 @@
+//! Verification hooks (cargo feature `fuellabs_sway_verif`, off by default).
+//!
+//! Thin public wrappers around crate-private items so that an external harness can drive
+//! individual compiler stages. Nothing in here is compiled without the feature.
+pub mod asmopt;
+pub mod datasection;
+pub mod entry;
+pub mod matching;
+pub mod regalloc;
